@@ -13,18 +13,95 @@ fn strategy() -> BoxedStrategy<FaultCase> {
         2 => bytes(12).prop_map(Mutation::Extend),
         4 => any::<u16>().prop_map(Mutation::FlipBit),
         3 => (any::<u16>(), prop_oneof![Just(0u8), Just(0xff), Just(0x80), any::<u8>()]).prop_map(|(p, v)| Mutation::SetByte(p, v)),
-        2 => any::<u16>().prop_map(Mutation::HugeLength),
+        3 => (any::<u16>(), 0u8..5).prop_map(|(p, k)| Mutation::HugeLength(p, k)),
     ];
     let fault = (0u8..24, prop_oneof![1 => Just(Target::Event), 2 => any::<u16>().prop_map(Target::Response)], mutation).prop_map(|(at, target, mutation)| Fault { at, target, mutation });
     let cfg = GenCfg { abortable: false, task_aborts: false, max_acts: 24, ..GenCfg::standard() };
     (universe(cfg), any::<bool>(), prop::collection::vec(fault, 1..8)).prop_map(|(universe, json, faults)| FaultCase { universe, json, faults }).boxed()
 }
 
+/// If the core aborts the process while handling an input (an allocation the size of a corrupted
+/// length field fails), the case in flight is written out and reported from the SIGABRT handler.
+mod inflight {
+    use std::sync::atomic::{AtomicI32, AtomicPtr, AtomicUsize, Ordering};
+    const SLOTS: usize = 64;
+    struct Slot {
+        tid: AtomicI32,
+        ptr: AtomicPtr<u8>,
+        len: AtomicUsize,
+    }
+    #[allow(clippy::declare_interior_mutable_const)]
+    const EMPTY: Slot = Slot { tid: AtomicI32::new(0), ptr: AtomicPtr::new(std::ptr::null_mut()), len: AtomicUsize::new(0) };
+    static TABLE: [Slot; SLOTS] = [EMPTY; SLOTS];
+    static NEXT: AtomicUsize = AtomicUsize::new(0);
+    static PATH: AtomicPtr<libc::c_char> = AtomicPtr::new(std::ptr::null_mut());
+    thread_local! { static MINE: std::cell::RefCell<(Option<usize>, Vec<u8>)> = const { std::cell::RefCell::new((None, Vec::new())) }; }
+
+    fn tid() -> i32 {
+        unsafe { libc::syscall(libc::SYS_gettid) as i32 }
+    }
+
+    /// remember the case this thread is about to run (as the text of its replay file)
+    pub fn set(case_json: Vec<u8>) {
+        MINE.with(|m| {
+            let mut m = m.borrow_mut();
+            let slot = *m.0.get_or_insert_with(|| NEXT.fetch_add(1, Ordering::SeqCst) % SLOTS);
+            TABLE[slot].len.store(0, Ordering::SeqCst);
+            m.1 = case_json;
+            TABLE[slot].tid.store(tid(), Ordering::SeqCst);
+            TABLE[slot].ptr.store(m.1.as_mut_ptr(), Ordering::SeqCst);
+            TABLE[slot].len.store(m.1.len(), Ordering::SeqCst);
+        });
+    }
+
+    extern "C" fn on_abort(_: libc::c_int) {
+        // only async-signal-safe calls from here on
+        unsafe {
+            let me = tid();
+            let path = PATH.load(Ordering::SeqCst);
+            for s in TABLE.iter() {
+                if s.tid.load(Ordering::SeqCst) == me && s.len.load(Ordering::SeqCst) > 0 && !path.is_null() {
+                    let fd = libc::open(path, libc::O_WRONLY | libc::O_CREAT | libc::O_TRUNC, 0o644);
+                    if fd >= 0 {
+                        let head = b"{\"property\":\"C12\",\"why\":\"the process aborted while the bridge was handling a malformed input (an allocation of the size a corrupted length field claims)\",\"case\":";
+                        libc::write(fd, head.as_ptr().cast(), head.len());
+                        libc::write(fd, s.ptr.load(Ordering::SeqCst).cast(), s.len.load(Ordering::SeqCst));
+                        libc::write(fd, b"}\n".as_ptr().cast(), 2);
+                        libc::close(fd);
+                    }
+                    let a = b"why: [abort] the process aborted while the bridge was handling a malformed input (unbounded allocation)\nVIOLATION property=C12 replay=";
+                    libc::write(1, a.as_ptr().cast(), a.len());
+                    libc::write(1, path.cast(), libc::strlen(path));
+                    libc::write(1, b"\n".as_ptr().cast(), 1);
+                    libc::_exit(1);
+                }
+            }
+            // not one of the case-running threads: default behaviour
+            libc::signal(libc::SIGABRT, libc::SIG_DFL);
+            libc::abort();
+        }
+    }
+
+    pub fn install() {
+        let dir = vkit::verif_root().join("out").join("violations");
+        let _ = std::fs::create_dir_all(&dir);
+        let path = dir.join(format!("C12-abort-{}.json", std::process::id()));
+        if let Ok(c) = std::ffi::CString::new(path.to_string_lossy().as_bytes()) {
+            PATH.store(c.into_raw(), Ordering::SeqCst);
+        }
+        unsafe {
+            libc::signal(libc::SIGABRT, on_abort as extern "C" fn(libc::c_int) as libc::sighandler_t);
+        }
+    }
+}
+
 pub fn main(mode: Mode) {
     let prop = "C12";
     let stats = Stats::new();
+    inflight::install();
     let max_alloc = std::sync::atomic::AtomicU64::new(0);
     let check = |c: &FaultCase| -> Result<(), String> {
+        inflight::set(serde_json::to_vec(c).unwrap_or_default());
         let info = run_fault_case(c)?;
         max_alloc.fetch_max(info.max_alloc, std::sync::atomic::Ordering::Relaxed);
         let mut labels = vec![if c.json { "bridge:json" } else { "bridge:bincode" }];
